@@ -194,6 +194,7 @@ func c15Check(prop, tier string) (*Outcome, error) {
 	} else {
 		gs = append(gs, families.G(3, 4)...)
 	}
+	gs = append(gs, families.GNames()...)
 	nGraph := len(gs)
 	gs = append(gs, families.GDuplicates()...)
 	out := &Outcome{Level: "exploration", Coverage: map[string]any{}, Exhaustive: true}
